@@ -610,6 +610,43 @@ Theorem C18_skelfacts_run : forall raises ls s,
   SkelFacts.run_from_ast raises s ls = DoneCb.Model.run_from raises s ls.
 Proof. exact SkelFacts.skel_run. Qed.
 
+(** ---- no callback given (`done=None`, the default): `if self._done:` is false.  [SkelFacts.step_mon_ast_nocb] is
+    the monitor step computed from the regenerated leaves with `self._done` falsy; [SkelFacts.step_mon_nocb] is the
+    model's monitor step with the one difference that after the scan section (MRel1) the monitor goes straight to the
+    exit check.  Step-level statements, for ALL states; run-level: no callback is ever invoked.  (That close() waits
+    for the registered threads in whole runs is proved for the model WITH a callback, C18_close_waits; for the
+    no-callback system only the step-level exit path below is proved.) *)
+Theorem C18_skelfacts_no_callback_step : forall raises s,
+  SkelFacts.step_mon_ast_nocb raises s = SkelFacts.step_mon_nocb raises s.
+Proof. exact SkelFacts.skel_nocb_step. Qed.
+
+(** the scanned thread goes into `done` iff it is NOT alive; the set stored is the loaded one minus exactly `done` *)
+Theorem C18_skelfacts_no_callback_removes_ended : forall raises s,
+  (forall t, m_pc s = MIsAlive t ->
+     m_done (fst (SkelFacts.step_mon_ast_nocb raises s))
+       = (if DoneCb.Model.is_alive (regs s t) then m_done s else ins t (m_done s))
+     /\ m_pc (fst (SkelFacts.step_mon_ast_nocb raises s)) = MIterNext)
+  /\ (forall r, m_pc s = MSetDiff r ->
+     heap (fst (SkelFacts.step_mon_ast_nocb raises s)) = heap s ++ [diff (obj (heap s) r) (m_done s)]
+     /\ m_pc (fst (SkelFacts.step_mon_ast_nocb raises s)) = MStore (List.length (heap s)))
+  /\ (forall n, m_pc s = MStore n -> active (fst (SkelFacts.step_mon_ast_nocb raises s)) = n).
+Proof. exact SkelFacts.skel_nocb_removes_ended. Qed.
+
+(** the monitor thread ends only from the `break` of the exit check (reached only with _closed read True after
+    the set was found empty) or from the exception of the scan: join() in close() still waits for that *)
+Theorem C18_skelfacts_no_callback_exit_path : forall raises s,
+  let s' := fst (SkelFacts.step_mon_ast_nocb raises s) in
+  ((exists e, m_pc s' = MExited e) -> m_pc s = MRelBreak \/ m_pc s = MRelExc \/ exists e, m_pc s = MExited e)
+  /\ (m_pc s' = MRelBreak -> (m_pc s = MLoadClosed /\ closed s = true) \/ m_pc s = MRelBreak)
+  /\ (m_pc s' = MLoadClosed -> (exists r, m_pc s = MTruth r /\ obj (heap s) r = []) \/ m_pc s = MLoadClosed).
+Proof. exact SkelFacts.skel_nocb_exit_path. Qed.
+
+(** in EVERY run (every label list, from every state that is not at the call) no callback is invoked *)
+Theorem C18_skelfacts_no_callback_never_calls : forall raises ls s, m_pc s <> MCallback ->
+  m_pc (fst (SkelFacts.run_from_nocb raises s ls)) <> MCallback
+  /\ forallb (fun o => negb (SkelFacts.is_cb_out o)) (snd (SkelFacts.run_from_nocb raises s ls)) = true.
+Proof. exact SkelFacts.skel_nocb_never_calls. Qed.
+
 Print Assumptions C18_skeleton_register.
 Print Assumptions C18_skeleton_close.
 Print Assumptions C18_skeleton_monitor.
@@ -677,3 +714,7 @@ Print Assumptions C18_skelfacts_close_step.
 Print Assumptions C18_skelfacts_close_registered.
 Print Assumptions C18_skelfacts_step.
 Print Assumptions C18_skelfacts_run.
+Print Assumptions C18_skelfacts_no_callback_step.
+Print Assumptions C18_skelfacts_no_callback_removes_ended.
+Print Assumptions C18_skelfacts_no_callback_exit_path.
+Print Assumptions C18_skelfacts_no_callback_never_calls.
